@@ -8,6 +8,7 @@ expected outcome from them with its own list-comprehension style definitions.
 -/
 import LndModel.Prelude.Lines
 import LndModel.C07.Model
+import LndModel.C07.Mailbox
 
 open LndModel LndModel.Lines LndModel.C07
 
@@ -261,6 +262,22 @@ structure St where
   undisciplined : Nat := 0
   races : Nat := 0
   raceWinners : Nat := 0
+  -- mailbox stream: model
+  mch : Nat → Chan := fun _ => Chan.empty
+  -- mailbox stream: monitor (implementation answers only)
+  mRound : List (Nat × Nat) := []          -- (sid, uid) handed to the link since its last reset
+  mInfo : List (Nat × Nat × Key × Nat) := []   -- uid, sid, inKey, typ
+  mUnacked : List (Nat × Nat) := []        -- (sid, uid) received, not yet acked
+  mAcked : List Nat := []
+  mUp : List Nat := []                     -- links the harness currently plays as running
+  mOps : Nat := 0
+  mReceived : Nat := 0
+  mParked : Nat := 0
+  mLinkUps : Nat := 0
+  mRedeliveredUnacked : Nat := 0
+  mAcks : Nat := 0
+  mExists : Nat := 0
+  mRelayed : Nat := 0
 
 def mismatch (s : St) (detail : String) : IO St := do
   if s.mismatches < 40 then
@@ -389,6 +406,74 @@ def monResponse (s : St) (r : String) (target : Option Key) (avail : Bool) : IO 
 def monDeleted (s : St) (keys : List Key) : St :=
   { s with live := eraseAll s.live keys, responded := eraseAll s.responded keys }
 
+/-! ### mailbox stream -/
+
+def uidsStr (l : List Nat) : String := if l.isEmpty then "-" else ".".intercalate (l.map toString)
+
+def uids? (s : String) : Option (List Nat) :=
+  if s == "-" then some [] else (s.splitOn ".").mapM nat?
+
+/-- `recv=sid:u.u;sid:u` -/
+def recv? (s : String) : Option (List (Nat × List Nat)) :=
+  if s == "-" then some [] else
+  (s.splitOn ";").mapM (fun part =>
+    match part.splitOn ":" with
+    | [a, b] => do
+      let sid ← nat? a
+      let l ← uids? b
+      pure (sid, l)
+    | _ => none)
+
+def mSids : List Nat := [1, 2]
+
+def renderChans (m : Nat → Chan) : String :=
+  " ".intercalate (mSids.map (fun sid =>
+    let c := m sid
+    let u (l : List Pkt) := uidsStr (l.map (·.uid))
+    s!"{sid}/{b01 c.live}/{b01 c.hasBox}/{b01 c.up}/U={u c.unclaimed}/RD={u c.repDone}/RT={u c.repTodo}/AD={u c.addDone}/AT={u c.addTodo}"))
+
+/-- monitor: packets handed to a link. `newRound` = this operation reset the mailbox of `sid`. -/
+def monRecv (s : St) (newRound : Option Nat) (recvs : List (Nat × List Nat)) : IO St := do
+  let mut s := s
+  match newRound with
+  | some sid =>
+    let again := (recvs.filter (fun r => r.1 == sid)).flatMap (·.2)
+    -- a running link gets every un-acked packet again after ResetPackets (nothing is lost)
+    if s.mUp.contains sid then
+      for (sd, u) in s.mUnacked do
+        if sd == sid && !(again.contains u) then
+          s ← monitor s "unacked-not-redelivered" s!"packet {u} was handed to link {sid}, never acked, and is not re-offered after ResetPackets"
+    s := { s with mRound := s.mRound.filter (fun x => x.1 != sid),
+                  mRedeliveredUnacked := s.mRedeliveredUnacked +
+                    (again.filter (fun u => s.mUnacked.contains (sid, u))).length }
+  | none => pure ()
+  for (sid, l) in recvs do
+    for u in l do
+      match s.mInfo.find? (fun x => x.1 == u) with
+      | none =>
+        s ← monitor s "mailbox-unknown-packet" s!"link {sid} received packet {u} that was never handed to Deliver"
+      | some (_, dsid, k, typ) =>
+        if dsid != sid then
+          s ← monitor s "mailbox-wrong-link" s!"packet {u} delivered to {dsid} reached link {sid}"
+        if s.mAcked.contains u then
+          let clause := if typ < 2 then "response-redelivered" else "add-redelivered"
+          s ← monitor s clause s!"packet {u} (inKey {keyStr k}, type {typ}) reached link {sid} again after it had been acked"
+        else if s.mRound.contains (sid, u) then
+          s ← monitor s "redelivered-without-reset" s!"packet {u} (inKey {keyStr k}) handed to link {sid} twice without a ResetPackets in between"
+      s := { s with mRound := (sid, u) :: s.mRound,
+                    mUnacked := if s.mUnacked.contains (sid, u) then s.mUnacked else (sid, u) :: s.mUnacked,
+                    mReceived := s.mReceived + 1 }
+  return s
+
+def recvOf (ws : List String) : Option (List (Nat × List Nat)) := (kv? (afterArrow ws) "recv").bind recv?
+
+/-- compare the model's received list for `sid` with the implementation's. -/
+def xRecv (s : St) (sid : Nat) (m : List Pkt) (impl : List (Nat × List Nat)) : IO St := do
+  let want := if m.isEmpty then [] else [(sid, m.map (·.uid))]
+  if want != impl then
+    mismatch s s!"mailbox recv: model={want.map (fun r => s!"{r.1}:{uidsStr r.2}")} impl={impl.map (fun r => s!"{r.1}:{uidsStr r.2}")}"
+  else pure s
+
 /-! ### one trace line -/
 
 def step (s : St) (line : String) : IO St := do
@@ -405,7 +490,9 @@ def step (s : St) (line : String) : IO St := do
   | "CASE" :: id :: rest =>
     let s := { s with caseId := id, kind := (kv? rest "kind").getD "", model := State.init, xOff := false,
                       prev := {}, live := [], responded := [], disciplined := true,
-                      expectSame := none, expectRestart := none, cases := s.cases + 1 }
+                      expectSame := none, expectRestart := none, cases := s.cases + 1,
+                      mch := fun _ => Chan.empty, mRound := [], mInfo := [], mUnacked := [], mAcked := [],
+                      mUp := [] }
     if s.samples < 3 && s.kind != "race" && !(s.kind.startsWith "script") then
       IO.println s!"SAMPLE {line}"
       return { s with samples := s.samples + 1 }
@@ -654,6 +741,131 @@ def step (s : St) (line : String) : IO St := do
     if toString want != r then
       s ← monitor s "next-index" s!"NextLocalHtlcIndex(remote={rI}, pending={pw}) = {r}"
     return s
+  | "msnap" :: rest =>
+    let m := renderChans s.mch
+    let impl := " ".intercalate rest
+    if m != impl then mismatch s s!"mailboxes: model[{m}] impl[{impl}]" else return s
+  | "mdeliver" :: sw :: uw :: kw :: tw :: _ =>
+    let s := { s with ops := s.ops + 1, mOps := s.mOps + 1 }
+    let some sid := nat? sw | mismatch s "bad sid"
+    let some u := nat? uw | mismatch s "bad uid"
+    let some k := key? kw | mismatch s "bad key"
+    let some t := nat? tw | mismatch s "bad typ"
+    let some recvs := recvOf ws | mismatch s "bad recv"
+    let r := resOf ws
+    let mut s := s
+    let parked := !(s.mch sid).live
+    let (c', mr) := chanStep (s.mch sid) u (.deliver sid k t)
+    let want := if mr.flag then "exists" else "ok"
+    if want != r then
+      s ← mismatch s s!"mdeliver: model={want} impl={r}"
+    s ← xRecv s sid mr.recv recvs
+    s := { s with mch := upd s.mch sid c', mInfo := (u, sid, k, t) :: s.mInfo,
+                  mParked := s.mParked + (if parked then 1 else 0),
+                  mExists := s.mExists + (if r == "exists" then 1 else 0),
+                  nontrivial := s.nontrivial + 1 }
+    monRecv s none recvs
+  | "mgetbox" :: sw :: _ =>
+    let s := { s with ops := s.ops + 1, mOps := s.mOps + 1 }
+    let some sid := nat? sw | mismatch s "bad sid"
+    let some recvs := recvOf ws | mismatch s "bad recv"
+    let (c', mr) := chanStep (s.mch sid) 0 (.getBox sid)
+    let s ← xRecv s sid mr.recv recvs
+    monRecv { s with mch := upd s.mch sid c' } none recvs
+  | "mlinkup" :: sw :: _ =>
+    let s := { s with ops := s.ops + 1, mOps := s.mOps + 1, mLinkUps := s.mLinkUps + 1 }
+    let some sid := nat? sw | mismatch s "bad sid"
+    let some recvs := recvOf ws | mismatch s "bad recv"
+    let (c', mr) := chanStep (s.mch sid) 0 (.linkUp sid)
+    let mut s ← xRecv s sid mr.recv recvs
+    if resOf ws != "ok" then
+      s ← mismatch s "mlinkup: ResetPackets failed"
+    monRecv { s with mch := upd s.mch sid c', nontrivial := s.nontrivial + 1,
+                     mUp := if s.mUp.contains sid then s.mUp else sid :: s.mUp } (some sid) recvs
+  | "mlinkdown" :: sw :: _ =>
+    let s := { s with ops := s.ops + 1, mOps := s.mOps + 1 }
+    let some sid := nat? sw | mismatch s "bad sid"
+    let (c', _) := chanStep (s.mch sid) 0 (.linkDown sid)
+    return { s with mch := upd s.mch sid c', mUp := s.mUp.filter (· != sid) }
+  | "mreset" :: sw :: _ =>
+    let s := { s with ops := s.ops + 1, mOps := s.mOps + 1 }
+    let some sid := nat? sw | mismatch s "bad sid"
+    let some recvs := recvOf ws | mismatch s "bad recv"
+    let (c', mr) := chanStep (s.mch sid) 0 (.reset sid)
+    let s ← xRecv s sid mr.recv recvs
+    monRecv { s with mch := upd s.mch sid c', nontrivial := s.nontrivial + 1 } (some sid) recvs
+  | "mack" :: sw :: kw :: _ =>
+    let s := { s with ops := s.ops + 1, mOps := s.mOps + 1 }
+    let some sid := nat? sw | mismatch s "bad sid"
+    let some k := key? kw | mismatch s "bad key"
+    let some recvs := recvOf ws | mismatch s "bad recv"
+    let r := resOf ws
+    let mut s := s
+    let c := s.mch sid
+    let wantHas := b01 (hasKey (c.repDone ++ c.repTodo) k)
+    let (c', mr) := chanStep c 0 (.ack sid k)
+    if b01 mr.flag != r then
+      s ← mismatch s s!"mack: model={b01 mr.flag} impl={r}"
+    if kv? (afterArrow ws) "has" != some wantHas then
+      s ← mismatch s s!"HasPacket: model={wantHas}"
+    s ← xRecv s sid mr.recv recvs
+    s := { s with mch := upd s.mch sid c' }
+    -- monitor: the first successful ack of inKey k after a response with that key was handed to
+    -- this link removes exactly that response (one reply per key in a mailbox)
+    if r == "1" then
+      let cand := s.mUnacked.filter (fun x => x.1 == sid &&
+        (s.mInfo.any (fun i => i.1 == x.2 && i.2.2.1 == k && i.2.2.2 < 2)))
+      match cand.head? with
+      | some (_, u) =>
+        s := { s with mAcked := u :: s.mAcked, mUnacked := s.mUnacked.filter (fun x => x != (sid, u)),
+                      mAcks := s.mAcks + 1, nontrivial := s.nontrivial + 1 }
+      | none =>
+        -- no received response with that key: the ack took a queued add (or a reply the link has
+        -- not seen yet); adds with that key are no longer expected back
+        s := { s with mUnacked := s.mUnacked.filter (fun x => !(x.1 == sid &&
+          s.mInfo.any (fun i => i.1 == x.2 && i.2.2.1 == k && i.2.2.2 == 2))) }
+    monRecv s none recvs
+  | "mrelay" :: ow :: setw :: uw :: _ =>
+    let s := { s with ops := s.ops + 1, mOps := s.mOps + 1 }
+    let some o := key? ow | mismatch s "bad key"
+    let some u := nat? uw | mismatch s "bad uid"
+    let some recvs := recvOf ws | mismatch s "bad recv"
+    let settle := setw == "settle=1"
+    let typ := if settle then 0 else 1
+    let r := resOf ws
+    let implIn := (kv? (afterArrow ws) "in").getD "-"
+    let mut s := s
+    let (m', rr) := relay s.model o settle
+    s := { s with model := m' }
+    match rr with
+    | .deliver k =>
+      let sid := k.chan
+      let (c', mr) := chanStep (s.mch sid) u (.deliver sid k typ)
+      let want := if mr.flag then "exists" else "ok"
+      if want != r || implIn != keyStr k then
+        s ← mismatch s s!"mrelay: model={want} in={keyStr k} impl={r} in={implIn}"
+      s ← xRecv s sid mr.recv recvs
+      s := { s with mch := upd s.mch sid c', mInfo := (u, sid, k, typ) :: s.mInfo, mRelayed := s.mRelayed + 1 }
+    | .dropNil =>
+      if r != "ok" || implIn != "-" then s ← mismatch s s!"mrelay: model=ok (dropped) impl={r} in={implIn}"
+      s ← xRecv s 0 [] recvs
+    | .closing =>
+      if r != "closing" then s ← mismatch s s!"mrelay: model=closing impl={r}"
+      s ← xRecv s 0 [] recvs
+    | .otherErr =>
+      if r != "err" then s ← mismatch s s!"mrelay: model=err impl={r}"
+      s ← xRecv s 0 [] recvs
+    -- monitor: an accepted response is one response of the circuit (respond-once), and it is a
+    -- packet handed to Deliver for the incoming channel
+    match key? implIn with
+    | some k =>
+      s ← monResponse s ("ok:" ++ implIn) none false
+      if !(s.mInfo.any (fun i => i.1 == u)) then
+        s := { s with mInfo := (u, k.chan, k, typ) :: s.mInfo }
+    | none => pure ()
+    monRecv s none recvs
+  | "mrestart" :: _ =>
+    return { s with mch := fun _ => Chan.empty, mRound := [], mUnacked := [], mUp := [] }
   | "race" :: _ =>
     let s := { s with ops := s.ops + 1, races := s.races + 1, xOff := true }
     let rs := (afterArrow ws).headD ""
@@ -710,5 +922,13 @@ def main : IO Unit := do
   IO.println s!"STAT undisciplined_cases={s.undisciplined}"
   IO.println s!"STAT races={s.races}"
   IO.println s!"STAT race_winners={s.raceWinners}"
+  IO.println s!"STAT mailbox_ops={s.mOps}"
+  IO.println s!"STAT mailbox_packets_parked_unclaimed={s.mParked}"
+  IO.println s!"STAT mailbox_link_starts={s.mLinkUps}"
+  IO.println s!"STAT mailbox_packets_received={s.mReceived}"
+  IO.println s!"STAT mailbox_unacked_redelivered_by_reset={s.mRedeliveredUnacked}"
+  IO.println s!"STAT mailbox_acks_of_received_responses={s.mAcks}"
+  IO.println s!"STAT mailbox_duplicates_refused={s.mExists}"
+  IO.println s!"STAT mailbox_responses_relayed_by_switch={s.mRelayed}"
   IO.println s!"STAT mismatches={s.mismatches}"
   IO.println s!"STAT monitor_failures={s.monitorFails}"
